@@ -40,6 +40,27 @@ func runConform(res *world.Result, s *simrt.Sim, o world.Opts, describe *[]strin
 	out := simrt.NewPipe(name + ".stdout")
 	hostW := &simrt.PipeWriter{P: in, Tag: name + ".stdin.host"}
 	hostR := &simrt.PipeReader{P: out, Tag: name + ".stdout.host"}
+	// the plugin's own channel next to its standard streams: the side it sets itself is
+	// connected there, the side it leaves to the library is its standard stream; the ends
+	// nobody is meant to use are closed (a reader there sees EOF at once)
+	ps.Channel = simrt.Choice("conform.channel", 4)
+	xin := simrt.NewPipe(name + ".altin")
+	xout := simrt.NewPipe(name + ".altout")
+	ps.AltIn = &simrt.PipeReader{P: xin, Tag: name + ".altin.child"}
+	ps.AltOut = &simrt.PipeWriter{P: xout, Tag: name + ".altout.child"}
+	xW := &simrt.PipeWriter{P: xin, Tag: name + ".altin.host"}
+	xR := &simrt.PipeReader{P: xout, Tag: name + ".altout.host"}
+	stdW, stdR := hostW, hostR
+	if ps.Channel == 0 || ps.Channel == 2 {
+		hostW = xW
+		stdW.Close()
+	} else {
+		xW.Close()
+	}
+	if ps.Channel == 0 || ps.Channel == 3 {
+		hostR = xR
+	}
+	defer func() { stdW.CloseQuiet(); stdR.CloseQuiet(); xW.CloseQuiet(); xR.CloseQuiet() }()
 	proc := s.StartProcess(&entry, "/sim/bin/"+entry.Name, nil, &simrt.PipeReader{P: in, Tag: name + ".stdin.child"}, &simrt.PipeWriter{P: out, Tag: name + ".stdout.child"})
 
 	seq := int32(1)
